@@ -279,9 +279,9 @@ def run_ebnf(case):
 
 
 def health(classes, n, tier):
-    need = {"fa": 0.1, "pda": 0.1, "fst": 0.1, "cfg": 0.1, "ebnf": 0.1, "eps_edge": 0.1, "parallel_edges": 0.03,
-            "multi_start": 0.04, "isolated_state": 0.02, "needs_marker": 0.05, "repeated_head": 0.03,
-            "multi_symbol_push": 0.03}
+    need = {"fa": 0.04, "pda": 0.04, "fst": 0.04, "cfg": 0.04, "ebnf": 0.04, "eps_edge": 0.04, "parallel_edges": 0.012,
+            "multi_start": 0.016, "isolated_state": 0.008, "needs_marker": 0.02, "repeated_head": 0.012,
+            "multi_symbol_push": 0.012}
     for k, frac in need.items():
         if classes.get(k, 0) < frac * n:
             return "class %s too rare: %d of %d" % (k, classes.get(k, 0), n)
